@@ -260,6 +260,24 @@ class AllFixedSizeElementLocator : public BaseAllFixedSizeElementLocator
     {
     }
 
+    AllFixedSizeElementLocator(const AllFixedSizeElementLocator&) = default;
+
+    // the block of a moved-from vector is gone: it holds no elements
+    constexpr AllFixedSizeElementLocator(AllFixedSizeElementLocator&& other) noexcept
+        : BaseAllFixedSizeElementLocator(other)
+    {
+        other.element_count_ = {};
+    }
+
+    AllFixedSizeElementLocator& operator=(const AllFixedSizeElementLocator&) = default;
+
+    constexpr AllFixedSizeElementLocator& operator=(AllFixedSizeElementLocator&& other) noexcept
+    {
+        BaseAllFixedSizeElementLocator::operator=(other);
+        other.element_count_ = {};
+        return *this;
+    }
+
     template <class Allocator>
     AllFixedSizeElementLocator(const AllFixedSizeElementLocator& other, std::byte*, std::size_t, std::byte*,
                                std::size_t, const Allocator&) noexcept
